@@ -1,3 +1,169 @@
-(* C30 — placeholder while the proofs are being written *)
+(* C30 — retried tasks run until they succeed, across failures and restarts.
+   Statements only; every proof is `exact <lemma>`.  Model: K.Model.Retry (task store of
+   writeback/store.go | tagreplication/store.go + the manager of lib/persistedretry/manager.go);
+   one atomic step = one store call / one channel operation; `reachable` = the states of all
+   finite histories of additions, executor verdicts, queue overflows, clock ticks, crashes,
+   graceful closes and restarts, in every interleaving of Add calls, workers and the poller. *)
 From Coq Require Import List NArith.
 From K.Model Require Import C30.
+From K.Proof Require Retry C30.
+Import ListNotations.
+Local Open Scope N_scope.
+
+(* "it leaves the persistent store only after a successful execution": the only step that makes a
+   stored task disappear is the worker's Remove, and then the latest executor event about the
+   task is a successful return *)
+Theorem C30_removed_only_after_success : forall s o t,
+  Retry.reachable s -> storedb t (s_store s) = true -> storedb t (s_store (fst (step s o))) = false ->
+  o = OpExecFin t /\ last_ev t (s_log s) = Some (ERet t true).
+Proof. exact Proof.C30.removed_only_after_success. Qed.
+Print Assumptions C30_removed_only_after_success.
+
+(* "across executor failures, full queues and process restarts": every other step keeps it *)
+Theorem C30_stays_stored : forall s o t,
+  Retry.reachable s -> storedb t (s_store s) = true -> o <> OpExecFin t ->
+  storedb t (s_store (fst (step s o))) = true.
+Proof. exact Proof.C30.stays_stored. Qed.
+Print Assumptions C30_stays_stored.
+
+(* "adding a task that is already stored has no further effect": the whole Add call returns the
+   state unchanged ... *)
+Theorem C30_add_existing_noop : forall s m a t d,
+  s_mgr s = Some m -> m_closed m = false -> existsb (fun p => fst p =? a) (m_add m) = false ->
+  storedb t (s_store s) = true ->
+  run s [OpAddCheck a t d; OpAddStore a] = (s, [ODone; OExists]).
+Proof. exact Retry.add_existing_noop. Qed.
+Print Assumptions C30_add_existing_noop.
+
+(* ... and so does its store call after any interleaving with other threads *)
+Theorem C30_add_existing_noop_interleaved : forall s m a b af t d,
+  s_mgr s = Some m -> pick (fun p => fst p =? a) (m_add m) = Some (b, (a, AStore t d), af) ->
+  storedb t (s_store s) = true ->
+  step s (OpAddStore a) = (with_mgr s (Some (set_add (b ++ af) m)), OExists).
+Proof. exact Retry.add_store_existing. Qed.
+Print Assumptions C30_add_existing_noop_interleaved.
+
+(* no stored pending task is ever outside the queues / the executor / an enqueue in flight, and it
+   is there exactly once *)
+Theorem C30_no_lost_task : forall s m t,
+  Retry.reachable s -> s_mgr s = Some m -> pendingb t (s_store s) = true ->
+  count_occ N.eq_dec (held m) t = 1%nat /\
+  (In t (m_in m) \/ In t (m_re m) \/ In t (executing m) \/ In t (add_held (m_add m)) \/ In t (p_held (m_poll m))).
+Proof. exact Proof.C30.no_lost_task_r. Qed.
+Print Assumptions C30_no_lost_task.
+
+(* conversely whatever is queued, executing or in flight is a stored pending task, held once *)
+Theorem C30_held_is_pending : forall s m t,
+  Retry.reachable s -> s_mgr s = Some m -> In t (held m) ->
+  pendingb t (s_store s) = true /\ count_occ N.eq_dec (held m) t = 1%nat.
+Proof. exact Proof.C30.held_is_pending_r. Qed.
+Print Assumptions C30_held_is_pending.
+
+(* a restart at any point (crash, also in the middle of an execution or of an Add) recovers every
+   unfinished task: nothing is dropped, every task is Failed, hence looked at by the next poll *)
+Theorem C30_restart_recovers : forall s order,
+  order_ok order (pending_ids (s_store s)) = true ->
+  let r := run s [OpCrash; OpStart order] in
+  snd r = [ODone; ODone] /\
+  ids (s_store (fst r)) = ids (s_store s) /\
+  (forall x, In x (s_store (fst r)) -> r_st x = Failed) /\
+  s_mgr (fst r) = Some (fresh_mgr (s_cfg s)) /\ s_log (fst r) = s_log s /\ s_now (fst r) = s_now s /\
+  s_cfg (fst r) = s_cfg s.
+Proof. exact Retry.restart_recovers. Qed.
+Print Assumptions C30_restart_recovers.
+
+(* the hypothesis of C30_restart_recovers can always be met *)
+Theorem C30_restart_order_exists : forall s,
+  Retry.reachable s -> order_ok (pending_ids (s_store s)) (pending_ids (s_store s)) = true.
+Proof. exact Proof.C30.start_order_exists_r. Qed.
+Print Assumptions C30_restart_order_exists.
+
+(* a start that dies after k of its MarkFailed calls drops nothing either *)
+Theorem C30_start_crash_keeps : forall s order k,
+  ids (s_store (fst (step s (OpStartCrash order k)))) = ids (s_store s).
+Proof. exact Retry.start_crash_keeps. Qed.
+Print Assumptions C30_start_crash_keeps.
+
+(* from every reachable state every stored task has a legal continuation to one more execution *)
+Theorem C30_progress_possible : forall s t,
+  Retry.reachable s -> cfg_ok (s_cfg s) = true -> storedb t (s_store s) = true ->
+  exists ops s' outs l, run s ops = (s', outs) /\ Retry.legal outs /\ s_log s' = l ++ s_log s /\ In (EStart t) l.
+Proof. exact Proof.C30.progress_possible_r. Qed.
+Print Assumptions C30_progress_possible.
+
+(* "executed until an execution succeeds" — PARTIAL.  Proved: however often the executor fails
+   (n times), the continuation in which the task is retried each time exists from every reachable
+   state; in it the task is executed n+1 times, stays stored through the failures and leaves the
+   store after the success.  MISSING (liveness needs a fairness assumption that is not
+   formalised): that the real scheduler takes such a continuation, i.e. FAIR := the poller and a
+   retry worker take steps again and again AND the task finds room in the retry queue when the
+   poller reaches it.  Thread fairness alone is not enough: C30_liveness_under_thread_fairness_refuted. *)
+Theorem C30_until_success_partial : forall s t n,
+  Retry.reachable s -> cfg_ok (s_cfg s) = true -> storedb t (s_store s) = true ->
+  exists ops s' outs l, run s ops = (s', outs) /\ Retry.legal outs /\ s_log s' = l ++ s_log s /\
+    Retry.about t l = ERet t true :: EStart t :: Retry.fails t n /\ storedb t (s_store s') = false.
+Proof. exact Proof.C30.until_success_r. Qed.
+Print Assumptions C30_until_success_partial.
+
+(* for every n there is a history in which the poller completes n+1 passes and the retry worker
+   executes 2(n+1) tasks, every operation is enabled, and the stored task 2 never reaches the
+   executor: whenever the poller reaches it the retry queue (capacity 1) is full *)
+Theorem C30_liveness_under_thread_fairness_refuted : forall n,
+  exists s outs,
+    run (init Proof.C30.starve_cfg) (Proof.C30.starve_setup ++ Proof.C30.rep (S n) Proof.C30.starve_round) = (s, outs) /\
+    Retry.legal outs /\ storedb 2 (s_store s) = true /\ ~ In (EStart 2) (s_log s) /\
+    s_log s = Proof.C30.rep (S n) Proof.C30.starve_evs.
+Proof. exact Proof.C30.thread_fairness_insufficient. Qed.
+Print Assumptions C30_liveness_under_thread_fairness_refuted.
+
+(* executable form used on observed traces: the oracle accepts every trace of the model *)
+Theorem C30_check_sound : forall c ops, C30_check ops (snd (run (init c) ops)) = true.
+Proof. exact Proof.C30.check_sound. Qed.
+Print Assumptions C30_check_sound.
+
+(* ---- non-vacuity *)
+
+(* a reachable state with a task in the executor, one waiting in the queue, one failed by
+   overflow and an Add in flight; the hypotheses of the theorems above are met by it *)
+(* Proof.C30.ex_state: the state after Start, Add 0 (dequeued, in the executor), Add 1 (queued),
+   Add 2 (queue full: marked failed), Add 3 stopped between AddPending and the enqueue *)
+Example C30_nonvacuous_state :
+  cfg_ok (s_cfg Proof.C30.ex_state) = true /\
+  map (fun r => (r_id r, r_st r, r_fail r)) (s_store Proof.C30.ex_state) =
+    [(0, Pending, 0); (1, Pending, 0); (2, Failed, 1); (3, Pending, 0)] /\
+  option_map (fun m => (m_in m, executing m, add_held (m_add m))) (s_mgr Proof.C30.ex_state) = Some ([1], [0], [3]) /\
+  forallb (fun o => negb (out_eqb o OIllegal)) (snd (run (init (mkcfg 1 1 1 1 1)) Proof.C30.ex_ops)) = true.
+Proof. vm_compute. repeat split; reflexivity. Qed.
+
+(* the removal step really occurs: task 0 succeeds and is removed by OpExecFin 0 *)
+Example C30_nonvacuous_removal :
+  let s := fst (run Proof.C30.ex_state [OpExecRet 0 true]) in
+  storedb 0 (s_store s) = true /\ storedb 0 (s_store (fst (step s (OpExecFin 0)))) = false /\
+  last_ev 0 (s_log s) = Some (ERet 0 true).
+Proof. vm_compute. repeat split; reflexivity. Qed.
+
+(* adding the stored task 1 again (thread 9): hypotheses hold, nothing changes *)
+Example C30_nonvacuous_add_existing :
+  option_map (fun m => (m_closed m, existsb (fun p => fst p =? 9) (m_add m))) (s_mgr Proof.C30.ex_state) = Some (false, false) /\
+  storedb 1 (s_store Proof.C30.ex_state) = true /\
+  run Proof.C30.ex_state [OpAddCheck 9 1 0; OpAddStore 9] = (Proof.C30.ex_state, [ODone; OExists]).
+Proof. vm_compute. repeat split; reflexivity. Qed.
+
+(* crash in the middle of the execution of task 0 and restart: all four tasks are kept, all Failed *)
+Example C30_nonvacuous_restart :
+  order_ok [0; 1; 3] (pending_ids (s_store Proof.C30.ex_state)) = true /\
+  map (fun r => (r_id r, r_st r, r_fail r)) (s_store (fst (run Proof.C30.ex_state [OpCrash; OpStart [0; 1; 3]]))) =
+    [(0, Failed, 1); (1, Failed, 1); (2, Failed, 1); (3, Failed, 1)].
+Proof. vm_compute. split; reflexivity. Qed.
+
+(* the oracle is not trivially true: it rejects a trace in which a task vanishes without a success,
+   one in which a pending task is held by nobody, and one in which a start leaves a task pending *)
+Example C30_check_rejects :
+  C30_check [OpObserve; OpObserve]
+            [OObs (mkobs [mkorow 1 Failed 1 None] true 0 0 []); OObs (mkobs [] true 0 0 [])] = false /\
+  C30_check [OpObserve] [OObs (mkobs [mkorow 1 Pending 0 None] true 0 0 [])] = false /\
+  C30_check [OpStart [1]; OpObserve] [ODone; OObs (mkobs [mkorow 1 Pending 0 None] true 0 0 [])] = false /\
+  C30_check [OpObserve; OpAddCheck 0 1 0; OpAddStore 0; OpObserve]
+            [OObs (mkobs [mkorow 1 Failed 1 None] true 0 0 []); ODone; OExists;
+             OObs (mkobs [mkorow 1 Failed 2 None] true 0 0 [])] = false.
+Proof. vm_compute. repeat split; reflexivity. Qed.
